@@ -251,3 +251,119 @@ def none_to_default(st, name, default=0):
     if isinstance(t.ops[0], _ast.IsNot):
         return dotted(e.body) == name and isd(e.orelse)
     return False
+
+
+def path_templates(repo, fi, e, depth=3):
+    """All string templates the path expression `e` (evaluated inside function
+    `fi`) can denote: constants are kept, every other operand becomes a
+    `{<source>}` placeholder.  Understands f-strings (nested ones are spliced),
+    `+`, `%`, `.format()`, `os.path.join()`, single-assignment temporaries, and
+    PARAMETERS of `fi`: a parameter stands for its constant default and for the
+    constant arguments passed at the call sites of `fi` in its own module (the
+    placeholder is kept as well when some call site passes a non-constant).
+    Returns a set of strings."""
+    import ast as _ast
+    import itertools as _it
+    from .pyrepo import dotted, norm_stmt
+
+    fnode = fi.node
+    a = fnode.args
+    params = [x.arg for x in a.posonlyargs + a.args]
+    kwonly = [x.arg for x in a.kwonlyargs]
+
+    def param_values(name):
+        vals = set()
+        if name in params:
+            pos = params.index(name)
+            ndef = len(a.defaults)
+            k = pos - (len(params) - ndef)
+            if 0 <= k < ndef:
+                vals |= tpl(a.defaults[k], depth - 1)
+        elif name in kwonly:
+            d = a.kw_defaults[kwonly.index(name)]
+            if d is not None:
+                vals |= tpl(d, depth - 1)
+        else:
+            return None
+        if depth <= 0:
+            return vals | {"{" + name + "}"}
+        is_method = fi.cls is not None and params and params[0] in ("self", "cls")
+        for g in repo.all_funcs(fi.module):
+            for c in calls_in_all(g.node):
+                nm = dotted(c.func) or ""
+                if nm.split(".")[-1] != fi.name:
+                    continue
+                if is_method and "." not in nm:
+                    continue
+                got = None
+                for kw in c.keywords:
+                    if kw.arg == name:
+                        got = kw.value
+                if got is None and name in params:
+                    i = params.index(name) - (1 if is_method else 0)
+                    if 0 <= i < len(c.args) and not any(isinstance(x, _ast.Starred) for x in c.args):
+                        got = c.args[i]
+                if got is not None:
+                    vals |= path_templates(repo, g, got, depth - 1)
+        return vals
+
+    def tpl(x, d):
+        if isinstance(x, _ast.Constant):
+            if isinstance(x.value, bytes):
+                return {x.value.decode("latin-1")}
+            return {str(x.value)}
+        if isinstance(x, _ast.JoinedStr):
+            parts = []
+            for v in x.values:
+                if isinstance(v, _ast.Constant):
+                    parts.append({str(v.value)})
+                else:
+                    parts.append(tpl(v.value, d))
+            return {"".join(p) for p in _it.islice(_it.product(*parts), 64)}
+        if isinstance(x, _ast.Name):
+            pv = param_values(x.id)
+            if pv is not None:
+                return pv or {"{" + x.id + "}"}
+            if d > 0:
+                y = deref(fnode, x, depth=1)
+                if not (isinstance(y, _ast.Name) and y.id == x.id):
+                    return tpl(y, d - 1)
+            return {"{" + x.id + "}"}
+        if isinstance(x, _ast.BinOp) and isinstance(x.op, _ast.Add):
+            return {l + r for l in tpl(x.left, d) for r in tpl(x.right, d)}
+        if isinstance(x, _ast.BinOp) and isinstance(x.op, _ast.Mod) \
+                and isinstance(x.left, _ast.Constant) and isinstance(x.left.value, str):
+            ops = x.right.elts if isinstance(x.right, _ast.Tuple) else [x.right]
+            pieces = x.left.value.replace("%%", "\0").split("%")
+            if len(pieces) - 1 == len(ops):
+                outs = {pieces[0]}
+                for p, o in zip(pieces[1:], ops):
+                    outs = {s + v + p[1:] for s in outs for v in tpl(o, d)}
+                return {s.replace("\0", "%") for s in outs}
+        if isinstance(x, _ast.Call):
+            nm = dotted(x.func) or ""
+            if nm in ("os.path.join", "path.join"):
+                outs = {""}
+                for i, o in enumerate(x.args):
+                    outs = {(s + "/" if i else s) + v for s in outs for v in tpl(o, d)}
+                return outs
+            if isinstance(x.func, _ast.Attribute) and x.func.attr == "format" \
+                    and isinstance(x.func.value, _ast.Constant) \
+                    and isinstance(x.func.value.value, str) and not x.keywords:
+                pieces = x.func.value.value.split("{}")
+                if len(pieces) - 1 == len(x.args):
+                    outs = {pieces[0]}
+                    for p, o in zip(pieces[1:], x.args):
+                        outs = {s + v + p for s in outs for v in tpl(o, d)}
+                    return outs
+            if nm in ("str", "os.fsdecode", "os.fspath") and len(x.args) == 1:
+                return tpl(x.args[0], d)
+        return {"{" + norm_stmt(x) + "}"}
+
+    return tpl(e, depth)
+
+
+def calls_in_all(node):
+    """Every Call under `node`, nested functions included."""
+    import ast as _ast
+    return [n for n in _ast.walk(node) if isinstance(n, _ast.Call)]
